@@ -40,7 +40,9 @@ type Job struct {
 	Tags  []string          `json:"tags,omitempty"`
 	Env   []string          `json:"env,omitempty"`
 	Args  []string          `json:"args,omitempty"`
-	Stdin string            `json:"stdin,omitempty"`
+	// NoArgs: Options.Args is an empty, non-nil slice (Args is ignored).
+	NoArgs bool   `json:"no_args,omitempty"`
+	Stdin  string `json:"stdin,omitempty"`
 	// OpBudget bounds the interpreted operations (0 = DefaultBudget).
 	OpBudget uint64 `json:"op_budget,omitempty"`
 	// After are sources evaluated on the same interpreter afterwards.
@@ -49,6 +51,9 @@ type Job struct {
 	GOOS         string   `json:"goos,omitempty"`
 	GOARCH       string   `json:"goarch,omitempty"`
 	Release      []string `json:"release,omitempty"`
+	// BeforePath, if set, is evaluated with EvalPath on the same interpreter
+	// before Path.
+	BeforePath string `json:"before_path,omitempty"`
 	// Test selects EvalTest instead of EvalPath.
 	Test bool `json:"test,omitempty"`
 	// Decoy: a second interpreter with other streams, arguments and
@@ -158,6 +163,9 @@ func NewInterp(j *Job, stdout, stderr io.Writer) *interp.Interpreter {
 	if opt.Args == nil {
 		opt.Args = []string{"prog"}
 	}
+	if j.NoArgs {
+		opt.Args = []string{}
+	}
 	if j.Files != nil {
 		m := fstest.MapFS{}
 		for k, v := range j.Files {
@@ -222,6 +230,11 @@ func Execute(j *Job, stall time.Duration) (out Outcome, poisoned bool) {
 		case j.Path != "" && j.Test:
 			r.err = i.EvalTest(j.Path)
 		case j.Path != "":
+			if j.BeforePath != "" {
+				if _, r.err = i.EvalPathWithContext(ctx, j.BeforePath); r.err != nil {
+					return
+				}
+			}
 			_, r.err = i.EvalPathWithContext(ctx, j.Path)
 		default:
 			name := j.Name
